@@ -633,7 +633,7 @@ func run(r *vf.Run, repo string) {
 
 	// ---- 3. random sequences over all subjects
 	rnd := r.Rand("c12-seq")
-	nseq := r.Pick(30000, 600000)
+	nseq := r.Pick(30000, 1500000)
 	for i := 0; i < nseq; i++ {
 		sub := subs[rnd.Intn(len(subs))]
 		if rnd.Intn(3) == 0 {
@@ -652,15 +652,16 @@ func run(r *vf.Run, repo string) {
 			steps = append(steps, step{ms[rnd.Intn(len(ms))], v})
 		}
 		runSequence(r, sub, steps)
-		r.SampleAt(i, func() interface{} {
+		if i == 0 || i == 101 || i == 5003 || i == 20011 {
 			var h []string
 			for _, s := range steps {
 				h = append(h, s.String())
 			}
-			return map[string]interface{}{"subject": sub.Name, "sequence": h}
-		})
+			r.Sample(map[string]interface{}{"path": "in-process", "subject": sub.Name, "sequence": h})
+		}
 	}
 	r.Floor("states checked in-process", int(r.Counter("states_checked")), 100000)
+	r.Floor("hostile values used", r.DistinctN("hostile_value"), len(vals))
 	r.Floor("formats exercised", r.DistinctN("format_exercised"), len(formats))
 	var fm []string
 	for f := range formats {
